@@ -8,12 +8,13 @@
 (*              either side.  Metric / float type / calling form: all variants for n <= 3 - f,   *)
 (*              one variant picked by a checksum of the input otherwise (half of them f64 + l2). *)
 (*  "restart" : datasets as above (n >= 2), k, initialiser random / k-means++ (n_runs 1..Runs)   *)
-(*              and k-means|| (one run), seeds, run to convergence.                              *)
+(*              and k-means|| (one run), seeds, run to convergence or for 1 / 2 iterations.      *)
 EXTENDS Integers, Sequences, FiniteSets, TLC, Json
 
 CONSTANTS Grid1, MaxN1,      \* traj, 1 feature : points on 0..Grid1
           Grid2, MaxN2,      \* traj, 2 features: points on (0..Grid2)^2
           MaxK, MaxB,
+          DeepN,             \* datasets with n <= DeepN get one more budget (denominators stay <= (DeepN+1)^(MaxB+1))
           RGrid1, RMaxN1, RGrid2, RMaxN2, Runs, Seeds
 
 VARIABLE case
@@ -67,7 +68,8 @@ Traj ==
      \E tol \in TolSet(f, n, v, Check(pts, c0)) :
        case = [kind |-> "traj",
                inp |-> [ft |-> v[1], metric |-> v[2], form |-> v[3], f |-> f, pts |-> pts, c0 |-> c0,
-                        qs |-> Queries(f, g), ms |-> [m \in 1..MaxB |-> m], tol |-> tol]]
+                        qs |-> Queries(f, g), ms |-> [m \in 1..(IF n <= DeepN THEN MaxB + 1 ELSE MaxB) |-> m],
+                        tol |-> tol]]
 
 Restart ==
   \E f \in 1..2 :
@@ -76,10 +78,13 @@ Restart ==
   IN \E n \in 2..(IF f = 1 THEN RMaxN1 ELSE RMaxN2) :
      \E k \in 1..(IF n < MaxK THEN n ELSE MaxK) :
      \E pts \in SortedSeqs(P, n), init \in {"random", "kmpp", "kmpara"}, seed \in Seeds :
-     LET v == Variants(f)[((Check(pts, <<>>) + k + seed) % 8) + 1] IN
+     LET h == Check(pts, <<>>) + k + seed
+         v == Variants(f)[(h % 8) + 1]
+         mi == <<300, 1, 300, 2>>[((h \div 8) % 4) + 1]      \* iteration budget: converged, or 1 / 2 iterations
+     IN
        case = [kind |-> "restart",
                inp |-> [ft |-> v[1], metric |-> v[2], f |-> f, pts |-> pts, k |-> k, init |-> init,
-                        seed |-> seed, runs |-> IF init = "kmpara" THEN 1 ELSE Runs, maxit |-> 300,
+                        seed |-> seed, runs |-> IF init = "kmpara" THEN 1 ELSE Runs, maxit |-> mi,
                         qs |-> Queries(f, g), tol |-> <<1, 1000000>>]]
 
 Init == Traj \/ Restart
